@@ -100,6 +100,64 @@ func ReadChannel(ctx context.Context, db *cesium.DB, spec tsm.ChannelSpec, a, b 
 	return out, nil
 }
 
+// ReadChannelWatchdog is ReadChannel for concurrent harnesses: if the read does not
+// return within the timeout (the cesium iterator's goroutine died, e.g. from a recovered
+// panic, and the caller waits for a response that never comes) it closes the iterator to
+// collect the goroutine's error and reports both.
+func ReadChannelWatchdog(ctx context.Context, db *cesium.DB, spec tsm.ChannelSpec, a, b int64, timeout time.Duration) ([][]byte, error) {
+	it, err := db.OpenIterator(cesium.IteratorConfig{Channels: []cesium.ChannelKey{spec.Key}, Bounds: telem.TimeRange{Start: telem.TimeStamp(a), End: telem.TimeStamp(b)}})
+	if err != nil {
+		return nil, err
+	}
+	type result struct {
+		fr  cesium.Frame
+		err error
+	}
+	done := make(chan result, 1)
+	go func() {
+		var fr cesium.Frame
+		if it.SeekFirst() {
+			for it.Next(telem.TimeSpanMax) {
+				fr = fr.Extend(it.Value())
+			}
+		}
+		done <- result{fr, it.Error()}
+	}()
+	var r result
+	select {
+	case r = <-done:
+	case <-time.After(timeout):
+		cerr := it.Close()
+		return nil, &StalledError{Err: cerr}
+	}
+	cerr := it.Close()
+	if r.err != nil {
+		return nil, fmt.Errorf("iterator error: %w", r.err)
+	}
+	if cerr != nil {
+		return nil, cerr
+	}
+	var out [][]byte
+	for k, s := range r.fr.Entries() {
+		if k != spec.Key {
+			return nil, fmt.Errorf("read of channel %d returned a series for channel %d", spec.Key, k)
+		}
+		smp, ok := tsm.Decode(spec.DataType, s.Data)
+		if !ok {
+			return nil, fmt.Errorf("series of channel %d has malformed layout (%d bytes)", spec.Key, len(s.Data))
+		}
+		out = append(out, smp...)
+	}
+	return out, nil
+}
+
+// StalledError reports a read whose iterator stopped answering.
+type StalledError struct{ Err error }
+
+func (e *StalledError) Error() string {
+	return fmt.Sprintf("iterator stopped answering; its goroutine ended with: %v", e.Err)
+}
+
 // ReadChannelIter reads one channel with a manual iterator loop of automatic
 // chunk-sized steps (Next(AutoSpan) returns false only when the bounds are exhausted).
 func ReadChannelIter(ctx context.Context, db *cesium.DB, spec tsm.ChannelSpec, a, b int64, chunk int64) ([][]byte, error) {
